@@ -55,10 +55,8 @@ func CanGlue(a, b ast.Tok) bool {
 	if isWordByte(la) && isWordByte(fb) {
 		return false
 	}
-	// a number directly followed by '.' would absorb it; '.' then digits is fine
-	if a.Kind == ast.TNum && fb == '.' {
-		return false
-	}
+	// (a number may be directly followed by the member operator: a numeric literal
+	// never absorbs an adjacent operator, 2.5.floor() is (2.5).floor())
 	// a number followed by a word character is handled above; a word followed by a
 	// number likewise. Operator pairs that would fuse into another token:
 	pair := string([]byte{la, fb})
